@@ -94,6 +94,7 @@ SITES = {
     'map_err_const': r'\.\s*map_err\s*\(',
     'map_err_fmt': r'\.\s*map_err\s*\(',
     'ok_or_else': r'\.\s*ok_or_else\s*\(',
+    'map_or': r'\.\s*map_or\s*\(',
     'any_next': r'\)\s*\.\s*any\s*\(',
     'format_opaque': r'(?<![\w:])format!\s*\(',
     'opt_map_ctor': r'\.\s*map\s*\(\s*[A-Z]\w*(?:::\w+)+\s*\)',
@@ -154,6 +155,26 @@ def apply(text, args):
     rstart = _receiver_start(text, m, s)
     recv = text[rstart:s]
     recv_clean = re.sub('\x01T?\\d+\x01', '', recv).strip()
+    if kind == 'map_or':
+        # X.map_or(D, |p| B)  ==>  match X { Some(p) => B, None => D }
+        close = rs.match_close(text, m, e - 1)
+        inner = text[e:close]
+        d_ = 0
+        cut = None
+        for i_, c_ in enumerate(inner):
+            if c_ in '([{':
+                d_ += 1
+            elif c_ in ')]}':
+                d_ -= 1
+            elif c_ == ',' and d_ == 0:
+                cut = i_
+                break
+        dflt = inner[:cut].strip()
+        mm2 = re.match(r'\s*\|([^|]*)\|\s*(.*)$', inner[cut + 1:], re.S)
+        rstart = _receiver_start(text, m, s)
+        recv = text[rstart:s]
+        new = '(match %s { Some(%s) => %s, None => %s })' % (recv.strip(), mm2.group(1).strip(), mm2.group(2).strip().rstrip(','), dflt)
+        return text[:rstart] + new + text[close + 1:], 'map_or #%d: `%s`.map_or(%s, |%s| ..)' % (k, rs.norm_ws(recv), dflt, mm2.group(1).strip())
     if kind == 'format_opaque':
         close = rs.match_close(text, m, e - 1)
         return text[:s] + 'vp_auth::opaque_error_message()' + text[close + 1:], 'format_opaque #%d: format!(..) error message replaced by an opaque String' % k
